@@ -164,11 +164,22 @@ def c03b_carry(ctx, tu):
                        detail="the constructor the new sequence handler is created with was not found")
                 continue
             why = None
-            for c in ctors:
-                st = role_stores(tu, _ctor_stores(tu, c, vals, 5, 7, 0))
-                if (st.get(F_MIN), st.get(F_MAX)) != (5, 7) and why is None:
-                    why = "with an old handler of (min 5, max 7) the new one gets (min %s, max %s)" % (
-                        _show(st.get(F_MIN)), _show(st.get(F_MAX)))
+            # several shapes of limits: a constructor that special-cases "the default" lower bound, or folds it into
+            # a flag, is wrong for some of them
+            for lo_v, hi_v in ((5, 7), (1, 3), (2, 3), (0, MAXSZ), (1, MAXSZ), (0, 2)):
+                o2 = Oracle(members=members(tu, lo_v, hi_v, 0), any_param=True, any_member=True, any_call=True).descend_into(tu)
+                it2 = Interp(fn, o2)
+                vals2 = {}
+                for i, a in enumerate(e.get("args") or []):
+                    try:
+                        vals2[i] = it2.ev(a)
+                    except Unknown as u:
+                        vals2[i] = ("opaque", str(u))
+                for c in ctors:
+                    st = role_stores(tu, _ctor_stores(tu, c, vals2, lo_v, hi_v, 0))
+                    if (st.get(F_MIN), st.get(F_MAX)) != (lo_v, hi_v) and why is None:
+                        why = "with an old handler of (min %s, max %s) the new one gets (min %s, max %s)" % (
+                            lo_v, "unbounded" if hi_v == MAXSZ else hi_v, _show(st.get(F_MIN)), _show(st.get(F_MAX)))
             ctx.ob("C03.b.carry", SS, why is None, pattern=fn.pat, unit=tu.name, inst=fn.q,
                    detail="" if why is None else "IN_SEQUENCE must keep the call-count limits set so far: " + why)
         except Unknown as u:
